@@ -395,7 +395,19 @@ func runC16(c *an.Ctx) {
 	// case-folds it first - lower-casing turns \S into \s, \D into \d, [A-Z] into [a-z] without any error
 	if pc := c.Fn("R2", "internal/actions.parseCtl"); pc != nil {
 		nRx := 0
+		// parseCtl and the private helpers it hands the pattern to (compileCtlKeyRx), with their closures
+		type scanFn struct{ f, owner *ssa.Function }
+		var scan []scanFn
 		for _, f := range an.WithClosures(pc) {
+			scan = append(scan, scanFn{f, pc})
+		}
+		for _, h := range privateCallees(pc, "internal/actions") {
+			for _, f := range an.WithClosures(h) {
+				scan = append(scan, scanFn{f, h})
+			}
+		}
+		for _, sf := range scan {
+			f, pc := sf.f, sf.owner
 			an.Instrs(f, func(in ssa.Instruction) {
 				if !an.IsCallToFunc(in, "regexp", "Compile") && !an.IsCallToFunc(in, "regexp", "MustCompile") {
 					return
@@ -415,6 +427,26 @@ func runC16(c *an.Ctx) {
 				if fv, ok := arg.(*ssa.FreeVar); ok {
 					for _, b := range closureBindings(pc, f, fv) {
 						srcs = append(srcs, b)
+					}
+				}
+				// a pattern that arrives as a parameter of a helper: what the callers pass
+				for i := 0; i < len(srcs); i++ {
+					for d := range an.Deps(srcs[i]) {
+						prm, ok := d.(*ssa.Parameter)
+						if !ok || prm.Parent() == nil || token.IsExported(prm.Parent().Name()) {
+							continue
+						}
+						idx := -1
+						for k, p2 := range prm.Parent().Params {
+							if p2 == prm {
+								idx = k
+							}
+						}
+						for _, cs := range c.P.CallSites(func(x ssa.Instruction) bool { return an.IsCallTo(x, prm.Parent()) }) {
+							if args := cs.Call.Common().Args; idx >= 0 && idx < len(args) && len(srcs) < 20 {
+								srcs = append(srcs, args[idx])
+							}
+						}
 					}
 				}
 				for _, sv := range srcs {
